@@ -260,10 +260,18 @@ def check(ctx):
     cands = [f for f in repo.functions.values() if not isinstance(f.node, ast.Lambda) and f.parent is not None
              and getattr(f.parent, 'cls', None) is kcls and len(f.all_params) == 1]
     cands = [f for f in cands if any(isinstance(n, ast.For) for n in ast.walk(f.node))]
+    if not cands:
+        # the same function at module level, handed out as functools.partial(f, <bound arguments>): its last parameter is the row
+        for meth in kcls.methods.values():
+            for c_ in ast.walk(meth.node):
+                if isinstance(c_, ast.Call) and u(c_.func) in ('functools.partial', 'partial') and c_.args and isinstance(c_.args[0], ast.Name):
+                    f_ = repo.func('%s:%s' % (SR, c_.args[0].id), None)
+                    if f_ is not None and len(f_.all_params) == len(c_.args) and any(isinstance(n, ast.For) for n in ast.walk(f_.node)):
+                        cands.append(f_)
     if len(cands) != 1:
         raise AnalysisError('sort_rows: key calculator function not found')
     kc = ctx.N(cands[0])
-    kident = toplevel_qualname(cands[0])
+    kident = toplevel_qualname(cands[0]) if getattr(cands[0].parent, 'cls', None) is kcls else kcls.qualname     # the calculator of KeyCalc, wherever it is written
     # fragments of the key: `ret += x` on the returned name, or `parts.append(x)` with `return ''.join(parts)`
     rets = [n for n in own_nodes(kc.node) if isinstance(n, ast.Return) and n.value is not None]
     frags = []
